@@ -8,3 +8,4 @@ import Dashu.Props.C11Powi
 #print axioms Dashu.Props.C11Powi.coarseNone_sound
 #print axioms Dashu.Props.C11Powi.powi_model_reproduces
 #print axioms Dashu.Props.C11Powi.powi_directed_counterexample
+#print axioms Dashu.Props.C11Powi.unit_base_zpow_reduce
